@@ -4,6 +4,7 @@ import math
 from typing import Any, Callable, Sequence, TypeVar
 
 from pbhhg_py import abstract_syntax as AS
+from pbhhg_py import error
 from pbhhg_py import utils
 
 
@@ -33,7 +34,12 @@ def build_tbl(proc_functional: utils.ProcFunctional):
             argv = yield from utils.match_arguments(
                 metadata, argv, arg_type, arity
             )
-            return ret_type(_fn(*(arg.value for arg in argv)))
+            try:
+                return ret_type(_fn(*(arg.value for arg in argv)))
+            except (OverflowError, ValueError):
+                raise error.UnsuspectedHangeulArithmeticError(
+                    metadata, "계산할 수 없는 값입니다."
+                ) from None
 
         return _proc
 
@@ -51,7 +57,12 @@ def build_tbl(proc_functional: utils.ProcFunctional):
                 assert isinstance(arg.value, int | float)
                 return AS.Float(_fn_real(arg.value))
             except (TypeError, ValueError, AssertionError):
-                return AS.Complex(_fn_complex(arg.value))
+                try:
+                    return AS.Complex(_fn_complex(arg.value))
+                except (OverflowError, ValueError):
+                    raise error.UnsuspectedHangeulArithmeticError(
+                        metadata, "계산할 수 없는 값입니다."
+                    ) from None
 
         return _proc
 
